@@ -5,7 +5,9 @@ Design language (interpreted with the real API by interp.py; described staticall
   design  = {"inputs": {id: width}, "methods": [mdecl], "groups": [gdecl],
              "modules": [{"name", "block", "subclass": 0|1 (built from a trivial subclass of TModule)}],
              "relations": [rel], "tag": str, "seed": int, "vseed": int, "inject": kind|None}
-  mdecl   = {"ref", "iw", "ow", "owner": module index | None, "group": [gname, index] | None}
+  mdecl   = {"ref", "iw", "ow", "owner": module index | None, "group": [gname, index] | None,
+             "fields": [w0, w1] (optional: multi-field input layout f0,f1; iw = w0+w1; call sites carry "argform":
+             "dict"|"kw"|"view" (positional View, same field names in the opposite order)|"view_same")}
   gdecl   = {"name", "count", "iw", "ow", "owner"}                          (a `Methods` object)
   stmt    = {"k":"if","uid","alts":[{"cond": id | None(=Else), "block"}]}
           | {"k":"switch","uid","test": id,"w","cases":[{"pats":[ints] | None(=Default), "block"}]}
@@ -163,21 +165,25 @@ class Gen:
             iw = rng.choice([0, 1, 2, 2, 2, 3])
             ow = rng.choice([0, 1, 2, 2])
             owner = rng.choice([None] + list(range(n_modules)))
-            self.methods.append({"ref": f"m{i}", "iw": iw, "ow": ow, "owner": owner, "group": None})
+            md = {"ref": f"m{i}", "iw": iw, "ow": ow, "owner": owner, "group": None}
+            if iw >= 2 and rng.random() < P.get("p_fields", 0.25):
+                # a multi-field input layout (fields f0, f1 of these widths; f0 in the low bits of the flat value)
+                md["fields"] = rng.choice([[1, iw - 1], [iw - 1, 1]])
+            self.methods.append(md)
         self.defined = [m["ref"] for m in self.methods]
 
     def make_method_stmt(self, ref: str) -> dict:
         rng, P = self.rng, self.P
         d = self.decl(ref)
         iw, ow = d["iw"], d["ow"]
-        nonex = rng.random() < P["p_nonexcl"]
+        nonex = rng.random() < P["p_nonexcl"] and not d.get("fields")
         comb = None
         if nonex and iw > 0:
             comb = rng.choice(["or", "sum", "xor", "count"])
-        elif iw > 0 and rng.random() < P["p_custom_comb"] * 0.3:
+        elif iw > 0 and not d.get("fields") and rng.random() < P["p_custom_comb"] * 0.3:
             comb = "or"  # an exclusive method with an explicit combiner
         validate = None
-        if iw > 0 and rng.random() < P["p_validate"]:
+        if iw > 0 and rng.random() < P["p_validate"] and not d.get("fields"):
             kind = rng.choice(["eq", "ne", "lt", "bit", "mbit", "mnz", "minc"] + (["mlow2"] if iw == 2 else []))
             if kind in ("mnz", "mlow2", "minc"):  # multi-bit results, no parameter
                 validate = [kind, 0]
@@ -219,14 +225,15 @@ class Gen:
             tgt = rng.choice([m["ref"] for m in self.methods])
             d = self.decl(tgt)
             ref = f"al{i}"
-            self.methods.append({"ref": ref, "iw": d["iw"], "ow": d["ow"], "owner": rng.choice([None] + list(range(n_modules))), "group": None})
+            self.methods.append({"ref": ref, "iw": d["iw"], "ow": d["ow"], "owner": rng.choice([None] + list(range(n_modules))), "group": None,
+                                 **({"fields": d["fields"]} if d.get("fields") else {})})
             self.provide[ref] = tgt
             self.provide_stmts.append({"k": "provide", "ref": ref, "target": tgt})
-        if rng.random() < P["p_group"]:
+        if rng.random() < P["p_group"] and any(not self.decl(r).get("fields") for r in self.defined):
             # a `Methods` group of aliases with a common layout, provided through Methods.provide
-            base = rng.choice(self.defined)
+            base = rng.choice([r for r in self.defined if not self.decl(r).get("fields")] or self.defined)
             d = self.decl(base)
-            same = [r for r in self.defined if (self.decl(r)["iw"], self.decl(r)["ow"]) == (d["iw"], d["ow"])]
+            same = [r for r in self.defined if (self.decl(r)["iw"], self.decl(r)["ow"], self.decl(r).get("fields")) == (d["iw"], d["ow"], d.get("fields"))]
             count = rng.choice([1, 1, 2]) if len(same) > 1 else 1
             tgts = [base] + [rng.choice(same) for _ in range(count - 1)]
             g = {"name": "g0", "count": count, "iw": d["iw"], "ow": d["ow"], "owner": rng.choice([None] + list(range(n_modules)))}
@@ -251,6 +258,7 @@ class Gen:
             "enable": self.gen_enable(),
             "arg": arg,
             "kw": int(rng.random() < 0.5),
+            "argform": rng.choice(["dict", "kw", "view", "view", "view_same"]),  # used by multi-field methods only
             "via_group": int(bool(d.get("group")) and self._group_count(d) == 1 and rng.random() < 0.5),
         }
 
@@ -686,7 +694,8 @@ def _helper_gen(d: dict, rng, P) -> "Gen":
 def _fresh_alias(d: dict, rng, target: str, tag: str) -> str:
     td = next(m for m in d["methods"] if m["ref"] == target)
     ref = f"y{tag}{len(d['methods'])}"
-    d["methods"].append({"ref": ref, "iw": td["iw"], "ow": td["ow"], "owner": rng.choice([None, 0]), "group": None})
+    d["methods"].append({"ref": ref, "iw": td["iw"], "ow": td["ow"], "owner": rng.choice([None, 0]), "group": None,
+                         **({"fields": td["fields"]} if td.get("fields") else {})})
     blk = d["modules"][rng.randrange(len(d["modules"]))]["block"]
     blk.insert(rng.randrange(len(blk) + 1), {"k": "provide", "ref": ref, "target": target})
     return ref
